@@ -35,15 +35,18 @@ use std::time::Duration;
 
 use ag_harness::poolkit::{Keys, make_epoch, new_pool};
 use ag_harness::*;
-use alpenglow::consensus::{AddShredError, Blockstore, BlockstoreEvent, BlockstoreImpl, SharedBlockstore, SharedPool, VerifBlockProducer};
+use alpenglow::consensus::{
+    AddShredError, Blockstore, BlockstoreEvent, BlockstoreImpl, Cert, FastFinalCert, NotarCert, NotarVote, Pool, PoolImpl, SharedBlockstore, SharedPool, SkipCert, SkipFallbackVote, SkipVote,
+    ValidatedCert, ValidatorEpochInfo, VerifBlockProducer,
+};
 use alpenglow::crypto::Hash;
-use alpenglow::crypto::merkle::BlockHash;
+use alpenglow::crypto::merkle::{BlockHash, GENESIS_BLOCK_HASH};
 use alpenglow::crypto::signature::PublicKey;
 use alpenglow::disseminator::verif_hooks::shred_position;
 use alpenglow::network::Network;
 use alpenglow::shredder::{DATA_SHREDS, MAX_DATA_PER_SLICE, RegularShredder, Shred, Shredder, TOTAL_SHREDS, ValidatedShred};
 use alpenglow::types::{Slice, SliceIndex, Slot};
-use alpenglow::{BlockId, Disseminator, MAX_TRANSACTION_SIZE, Transaction};
+use alpenglow::{BlockId, Disseminator, MAX_TRANSACTION_SIZE, Transaction, ValidatorIndex};
 use tokio::sync::{RwLock, mpsc, oneshot};
 
 /// unit of virtual time
@@ -444,6 +447,9 @@ struct World {
 }
 
 fn intern(tab: &mut Vec<Vec<u8>>, b: Vec<u8>) -> usize {
+    if b == hbytes(&GENESIS_BLOCK_HASH) {
+        return 0; // the model's id of GENESIS_BLOCK_HASH
+    }
     match tab.iter().position(|x| *x == b) {
         Some(i) => i + 1,
         None => {
@@ -1265,6 +1271,400 @@ fn random_case(rng: &mut Rng, thorough: bool) -> CasePlan {
     c
 }
 
+
+// ---------------------------------------------------------------------------------------------------------
+// window level: the REAL `block_production_loop` (hook `verif_block_production_loop`) for one leader window
+// ---------------------------------------------------------------------------------------------------------
+
+/// window-plan timing: block time 8 U, first slice 2 U (the detached 1 ms poller of `wait_for_first_slot` keeps the
+/// paused clock advancing in 1 ms steps, so virtual time is kept short)
+const WDB: Duration = Duration::from_secs(80);
+const WFS: Duration = Duration::from_secs(20);
+const WN: usize = 6;
+
+#[derive(Clone, Debug)]
+enum WFirst {
+    /// the node does not lead window `w` (it leads window `w + 1`: the loop parks there)
+    NotLeader,
+    /// window 0
+    Genesis,
+    /// ParentReady(first, block `back` slots earlier) is in the pool before the loop starts
+    PrAlready(u64),
+    /// ... arrives while `wait_for_first_slot` waits
+    PrFirst(u64),
+    /// the block of the previous slot is reconstructed first (optimistic handover); the ParentReady follows this much later
+    PrevFirst(PrWhat, Duration),
+    /// a fast-finalization certificate for the second slot of the window arrives first
+    FinalFirst,
+}
+#[derive(Clone, Debug)]
+struct WindowPlan {
+    tag: String,
+    w: u64,
+    first: WFirst,
+    eq: bool,
+    script: Vec<Ev>,
+    what: String,
+}
+
+fn all_validators() -> Vec<usize> {
+    (0..WN).collect()
+}
+fn vi(i: usize) -> ValidatorIndex {
+    ValidatorIndex::new(i as u64)
+}
+fn notar_cert(keys: &Keys, epoch: &Arc<ValidatorEpochInfo>, id: &BlockId) -> ValidatedCert {
+    let v: Vec<NotarVote> = all_validators().into_iter().map(|i| NotarVote::new(id.0, id.1.clone(), &keys.vsks[i], vi(i))).collect();
+    ValidatedCert::try_new(Cert::Notar(NotarCert::new(&v, epoch.epoch_info().validators())), epoch.epoch_info()).expect("valid cert")
+}
+fn skip_cert(keys: &Keys, epoch: &Arc<ValidatorEpochInfo>, slot: u64) -> ValidatedCert {
+    let v: Vec<SkipVote> = all_validators().into_iter().map(|i| SkipVote::new(Slot::new(slot), &keys.vsks[i], vi(i))).collect();
+    let f: Vec<SkipFallbackVote> = vec![];
+    ValidatedCert::try_new(Cert::Skip(SkipCert::new(&v, &f, epoch.epoch_info().validators())), epoch.epoch_info()).expect("valid cert")
+}
+fn ff_cert(keys: &Keys, epoch: &Arc<ValidatorEpochInfo>, id: &BlockId) -> ValidatedCert {
+    let v: Vec<NotarVote> = all_validators().into_iter().map(|i| NotarVote::new(id.0, id.1.clone(), &keys.vsks[i], vi(i))).collect();
+    ValidatedCert::try_new(Cert::FastFinal(FastFinalCert::new(&v, epoch.epoch_info().validators())), epoch.epoch_info()).expect("valid cert")
+}
+/// the certificates that make the pool emit ParentReady(first, parent)
+fn pr_certs(keys: &Keys, epoch: &Arc<ValidatorEpochInfo>, first: u64, parent: &BlockId) -> Vec<ValidatedCert> {
+    let mut v = vec![];
+    for s in parent.0.inner() + 1..first {
+        v.push(skip_cert(keys, epoch, s));
+    }
+    v.push(notar_cert(keys, epoch, parent));
+    v
+}
+
+fn run_window_case(w: &mut World, rng: &mut Rng, p: &WindowPlan) {
+    w.rec.begin_case(&p.tag);
+    w.hashes.clear();
+    let first = p.w * 4;
+    let (db, fs) = if p.eq { (WFS, WFS) } else { (WDB, WFS) };
+    let desc = format!("window plan: window {} (slots {}..{}) {:?} deltas {}s/{}s script[{}]", p.w, first, first + 3, p.first, db.as_secs(), fs.as_secs(), p.what);
+    w.rec.step(&format!("plan {desc}"), "ok");
+    let leads = !matches!(p.first, WFirst::NotLeader);
+    let own = if leads { p.w as usize } else { p.w as usize + 1 };
+    assert!(own < WN && (p.w as usize) < WN);
+    let rt = tokio::runtime::Builder::new_current_thread().enable_time().start_paused(true).build().expect("runtime");
+    let sh: Sh = Arc::new(Mutex::new(Shared {
+        script: p.script.iter().cloned().collect(),
+        wait_until: None,
+        delivered: vec![],
+        pr: None,
+        pr_after_slice: None,
+        pr_fired: None,
+        boundary: true,
+        yield_on_boundary: true,
+        sent: vec![],
+        fail_per_64: 0,
+        fail_salt: rng.next(),
+        trace: vec![],
+    }));
+    let epoch = make_epoch(&w.keys, &[1; WN], own);
+    let (ltx, mut lrx) = mpsc::channel(1 << 16);
+    let leader_store: Arc<RwLock<BlockstoreImpl>> = Arc::new(RwLock::new(BlockstoreImpl::new(ltx)));
+    let shared_store: SharedBlockstore = leader_store.clone();
+    let (pool, _pool_ev, _pool_rep) = new_pool(&epoch);
+    let pool: Arc<RwLock<PoolImpl>> = Arc::new(RwLock::new(pool));
+    let shared_pool: SharedPool = pool.clone();
+    let producer = VerifBlockProducer::new(w.keys.sks[0].clone(), epoch.clone(), Arc::new(RecDiss(sh.clone())), ScriptNet(sh.clone()), shared_store, shared_pool, db, fs);
+    let (ftx, mut frx) = mpsc::channel(1 << 16);
+    let mut follower = BlockstoreImpl::new(ftx);
+
+    // --- the environment of the plan
+    let rand_parent = |rng: &mut Rng, back: u64| -> BlockId { (Slot::new(first - back), rand_hash(rng)) };
+    // the block of the previous slot (another leader's: key 1), one empty slice
+    let prev_shreds: Vec<ValidatedShred> = if let WFirst::PrevFirst(..) = p.first {
+        let slice = Slice {
+            slot: Slot::new(first - 1),
+            slice_index: slice_index(0),
+            is_last: true,
+            parent: Some((Slot::new(first - 2), rand_hash(rng))),
+            data: wincode::serialize(&Vec::<Transaction>::new()).expect("empty tx vector"),
+        };
+        let mut v = w.shredder.shred(&slice, &w.keys.sks[1]).expect("fits").to_vec();
+        rng.shuffle(&mut v);
+        v.truncate(DATA_SHREDS + rng.below(8) as usize);
+        v
+    } else {
+        vec![]
+    };
+    // what `wait_for_first_slot` is made to see first (the model's input), the ParentReady parent, the certificates
+    let mut al = "-".to_string();
+    let mut pf = "-".to_string();
+    let mut pv = "-".to_string();
+    let mut fin = 0;
+    let mut pr_parent: Option<BlockId> = None;
+    match &p.first {
+        WFirst::PrAlready(back) => {
+            let par = rand_parent(rng, *back);
+            al = format!("{} {}", par.0.inner(), intern(&mut w.hashes, hbytes(&par.1)));
+            let certs = pr_certs(&w.keys, &epoch, first, &par);
+            rt.block_on(async {
+                for c in certs {
+                    pool.write().await.add_cert(c).await.expect("certificate accepted");
+                }
+            });
+            pr_parent = Some(par);
+        }
+        WFirst::PrFirst(back) => {
+            let par = rand_parent(rng, *back);
+            pf = format!("{} {}", par.0.inner(), intern(&mut w.hashes, hbytes(&par.1)));
+            pr_parent = Some(par);
+        }
+        WFirst::FinalFirst => fin = 1,
+        _ => {}
+    }
+    let keys = &w.keys;
+    let cancel = producer.verif_cancel_token();
+    let prev_hash: Arc<Mutex<Option<BlockHash>>> = Arc::new(Mutex::new(None));
+    let pr_final: Arc<Mutex<Option<BlockId>>> = Arc::new(Mutex::new(pr_parent.clone()));
+    let pr_rand = rand_hash(rng);
+    let res = catch(|| {
+        rt.block_on(async {
+            let driver = async {
+                // first poll: the loop is pending inside the first window this node leads - it ends after that window
+                cancel.cancel();
+                tokio::time::sleep(U / 2).await;
+                match &p.first {
+                    WFirst::PrFirst(_) => {
+                        for c in pr_certs(keys, &epoch, first, pr_parent.as_ref().expect("parent")) {
+                            pool.write().await.add_cert(c).await.expect("certificate accepted");
+                        }
+                    }
+                    WFirst::FinalFirst => {
+                        let c = ff_cert(keys, &epoch, &(Slot::new(first + 1), pr_rand.clone()));
+                        pool.write().await.add_cert(c).await.expect("certificate accepted");
+                    }
+                    WFirst::PrevFirst(what, at) => {
+                        let mut h = None;
+                        for v in prev_shreds.iter().cloned() {
+                            if let Ok(Some(info)) = leader_store.write().await.add_shred_from_dissemination(v).await {
+                                h = Some(info.verif_hash().clone());
+                            }
+                        }
+                        let h = h.expect("the block of the previous slot is reconstructed");
+                        *prev_hash.lock().unwrap() = Some(h.clone());
+                        let par: BlockId = match what {
+                            PrWhat::Same => (Slot::new(first - 1), h),
+                            PrWhat::Sibling => (Slot::new(first - 1), pr_rand.clone()),
+                            PrWhat::Earlier(back) => (Slot::new(first - back), pr_rand.clone()),
+                        };
+                        *pr_final.lock().unwrap() = Some(par.clone());
+                        let certs = pr_certs(keys, &epoch, first, &par);
+                        tokio::time::sleep(*at).await;
+                        lock(&sh).trace.push(T::PrNow);
+                        for c in certs {
+                            pool.write().await.add_cert(c).await.expect("certificate accepted");
+                        }
+                    }
+                    _ => {}
+                }
+                if leads {
+                    tokio::time::sleep((WDB + WFS) * 6).await;
+                }
+            };
+            tokio::select! {
+                biased;
+                r = producer.verif_block_production_loop() => Some(r),
+                () = driver => None,
+            }
+        })
+    });
+    let (loop_done, failure): (bool, Option<String>) = match &res {
+        Ok(Some(Ok(()))) => (true, None),
+        Ok(Some(Err(e))) => (false, Some(format!("error {e:#}"))),
+        Ok(None) => (false, None),
+        Err(pn) => (false, Some(format!("panic {pn}"))),
+    };
+    let (sent, delivered, trace) = {
+        let st = lock(&sh);
+        (st.sent.clone(), st.delivered.clone(), st.trace.clone())
+    };
+    let lev = drain(&mut lrx);
+    let prev_hash = prev_hash.lock().unwrap().clone();
+    let pr_final = pr_final.lock().unwrap().clone();
+    if let Some(h) = &prev_hash {
+        pv = intern(&mut w.hashes, hbytes(h)).to_string();
+    }
+    let prid = match (&p.first, &pr_final) {
+        (WFirst::PrevFirst(..), Some(par)) => Some((par.0.inner(), intern(&mut w.hashes, hbytes(&par.1)))),
+        _ => None,
+    };
+    w.rec.step(&format!("win {own} {WN} {} {} al {al} pf {pf} pv {pv} fin {fin}", p.w, p.eq as u8), "ok");
+
+    // --- the blocks, in the order their first shred went out
+    let mut slots: Vec<u64> = vec![];
+    for (s, _) in &sent {
+        let sl = shred_position(s).0.inner();
+        if !slots.contains(&sl) {
+            slots.push(sl);
+        }
+    }
+    let nslices_of = |slot: u64| -> usize { sent.iter().filter(|(s, _)| shred_position(s).0.inner() == slot).map(|(s, _)| shred_position(s).1 + 1).max().unwrap_or(0) };
+    let hash_of = |slot: u64| -> Option<BlockHash> { lev.iter().find(|e| e.0 == "block" && e.1 == slot).and_then(|e| e.2.clone()) };
+    // the environment trace, cut into blocks
+    let mut traces: Vec<Vec<T>> = vec![vec![]];
+    {
+        let mut bi = 0usize;
+        let mut outs = 0usize;
+        for t in &trace {
+            traces.last_mut().expect("trace").push(t.clone());
+            if let T::Out(_) = t {
+                outs += 1;
+                if bi < slots.len() && outs == nslices_of(slots[bi]) && hash_of(slots[bi]).is_some() {
+                    bi += 1;
+                    outs = 0;
+                    traces.push(vec![]);
+                }
+            }
+        }
+    }
+    let mut prev: BlockId = match &p.first {
+        WFirst::Genesis => (Slot::new(0), GENESIS_BLOCK_HASH),
+        WFirst::PrevFirst(..) => (Slot::new(first - 1), prev_hash.clone().unwrap_or(GENESIS_BLOCK_HASH)),
+        _ => pr_final.clone().unwrap_or((Slot::new(0), GENESIS_BLOCK_HASH)),
+    };
+    let mut class = fnv(0, &p.tag);
+    let mut produced: Vec<(u64, usize, BlockId)> = vec![];
+    let mut chain_ok = true;
+    let mut chain_msgs: Vec<String> = vec![];
+    let mut cursor = 0usize;
+    for (bi, slot) in slots.iter().enumerate() {
+        let slot = *slot;
+        let tr = traces.get(bi).cloned().unwrap_or_default();
+        let ntx = tr.iter().filter(|t| matches!(t, T::Tx(_))).count();
+        let del: Vec<Vec<u8>> = delivered[cursor.min(delivered.len())..(cursor + ntx).min(delivered.len())].to_vec();
+        cursor += ntx;
+        let my_sent: Vec<(Shred, bool)> = sent.iter().filter(|(s, _)| shred_position(s).0.inner() == slot).cloned().collect();
+        let my_lev: Vec<(String, u64, Option<BlockHash>)> = lev.iter().filter(|e| e.1 == slot).cloned().collect();
+        let outcome = match hash_of(slot) {
+            Some(h) => Outcome::Done((Slot::new(slot), h)),
+            None => match &failure {
+                Some(f) if f.starts_with("panic") => Outcome::Panicked(f.clone()),
+                Some(f) => Outcome::Failed(f.clone()),
+                None => Outcome::Stalled,
+            },
+        };
+        // the parent this block must end up with: first block - the ParentReady parent; later - the block just produced
+        let optimistic = bi == 0 && matches!(p.first, WFirst::PrevFirst(..));
+        let given = prev.clone();
+        let expected_parent = if optimistic { pr_final.clone().unwrap_or(given.clone()) } else { given.clone() };
+        let gid = intern(&mut w.hashes, hbytes(&given.1));
+        let begin_op = format!("begin {} {slot} {} {gid} {} {}", if optimistic { "notready" } else { "ready" }, given.0.inner(), p.eq as u8, w.hashes.len());
+        let ctx = format!("window block{bi} slot {slot} given {} expected parent {} | {desc}", bid(&given), bid(&expected_parent));
+        let (r, slice_lines, block_line) = judge(w, rng, &rt, &ctx, slot, &outcome, &my_sent, &del, &expected_parent, &leader_store, &my_lev, &mut follower, &mut frx);
+        w.rec.step(&format!("judged block {bi} slot {slot}: {r}"), "ok");
+        let done = matches!(outcome, Outcome::Done(_));
+        let ops = model_ops(&tr, if optimistic { prid } else { None }, !done);
+        w.rec.step(&begin_op, "ok");
+        for (j, op) in ops.iter().enumerate() {
+            let imp = slice_lines.get(j).cloned().unwrap_or_else(|| format!("none {}", if failure.is_some() { "panic" } else { "blocked" }));
+            w.rec.step(op, &imp);
+        }
+        w.rec.step("end", &block_line);
+        w.rec.count("blocks-replayed-on-model");
+        w.rec.count("window-blocks");
+        class = fnv(class, &r);
+        if let Outcome::Done(id) = &outcome {
+            let stored = leader_store.try_read().expect("leader store is free").get_block(id).map(|b| b.verif_parent());
+            let want_slot = if matches!(p.first, WFirst::Genesis) { 1 + bi as u64 } else { first + bi as u64 };
+            if stored.as_ref() != Some(&expected_parent) || slot != want_slot {
+                chain_ok = false;
+                chain_msgs.push(format!("block {bi} is in slot {slot} (expected slot {want_slot}) with parent {} (expected {})", stored.as_ref().map(bid).unwrap_or("?".into()), bid(&expected_parent)));
+            }
+            let par = stored.unwrap_or(expected_parent.clone());
+            produced.push((slot, intern(&mut w.hashes, hbytes(&id.1)), par));
+            prev = id.clone();
+        } else {
+            break;
+        }
+    }
+    // --- the window as a whole (independent of the model)
+    let expect_blocks: Vec<u64> = match &p.first {
+        WFirst::NotLeader | WFirst::FinalFirst => vec![],
+        WFirst::Genesis => vec![1, 2, 3],
+        _ => (first..first + 4).collect(),
+    };
+    let block_events: Vec<u64> = lev.iter().filter(|e| e.0 == "block" && e.1 >= first.max(1) && e.1 < first + 4).map(|e| e.1).collect();
+    let window_ok = failure.is_none() && slots == expect_blocks && block_events == expect_blocks && chain_ok && (loop_done || !leads);
+    w.rec.oracle(window_ok, "bp-window-chain", || {
+        format!(
+            "leader window: shreds went out for slots {slots:?}, completed blocks {block_events:?}, expected exactly one block for each of {expect_blocks:?} in order, the first on the ParentReady parent, every later one on the block before; loop {}; {chain_msgs:?} | {desc}",
+            match (&failure, loop_done) {
+                (Some(f), _) => f.clone(),
+                (None, true) => "finished the window".into(),
+                (None, false) => "still pending".into(),
+            }
+        )
+    });
+    let verdict = if !produced.is_empty() || !slots.is_empty() {
+        if loop_done && produced.len() == slots.len() { "complete" } else { "stuck" }
+    } else if !leads {
+        "notleader"
+    } else if loop_done {
+        "skip"
+    } else {
+        "waiting"
+    };
+    let mut line = format!("window {verdict} {}", produced.len());
+    for (s, h, par) in &produced {
+        line += &format!(" {s} {h} {} {}", par.0.inner(), intern(&mut w.hashes, hbytes(&par.1)));
+    }
+    w.rec.step("wend", &line);
+    w.rec.count(&format!("window:{verdict}"));
+    w.rec.count("windows-replayed-on-model");
+    class = fnv(class, &line.split(' ').take(3).collect::<Vec<_>>().join(" "));
+    w.class = class;
+    w.rec.end_case(class, true);
+}
+
+fn window_script(rng: &mut Rng, nblocks: usize, eq: bool) -> (Vec<Ev>, String) {
+    let mut waits = 0usize;
+    let mut s = sb!(rng, &mut waits);
+    for _ in 0..nblocks {
+        match s.rng.below(4) {
+            0 => {}
+            1 => s.tiny_flood(3, 20),
+            2 => s.few(2),
+            _ => s.max_flood(70),
+        }
+        // long enough to run every timer of the block out
+        s.wait(if eq { 3 } else { 9 });
+    }
+    (s.evs, s.what.join(","))
+}
+
+fn window_plans(rng: &mut Rng, thorough: bool) -> Vec<WindowPlan> {
+    let mut out = vec![];
+    let rounds = if thorough { 12 } else { 1 };
+    for round in 0..rounds {
+        let mut firsts: Vec<(String, WFirst)> = vec![
+            ("not-leader".into(), WFirst::NotLeader),
+            ("genesis".into(), WFirst::Genesis),
+            ("pr-already".into(), WFirst::PrAlready(rng.range(1, 3))),
+            ("pr-first".into(), WFirst::PrFirst(rng.range(1, 3))),
+            ("final-first".into(), WFirst::FinalFirst),
+        ];
+        for (i, what) in [PrWhat::Same, PrWhat::Sibling, PrWhat::Earlier(rng.range(2, 3))].into_iter().enumerate() {
+            let at = match (i + round) % 3 {
+                0 => units(0),
+                1 => units(rng.range(1, 6)),
+                _ => units(rng.range(9, 14)),
+            };
+            firsts.push((format!("prev-first-{what:?}"), WFirst::PrevFirst(what, at + U / 4)));
+        }
+        for (name, f) in firsts {
+            let eq = rng.chance(1, 3);
+            let w = if matches!(f, WFirst::Genesis) { 0 } else { rng.range(1, 4) };
+            let (script, what) = window_script(rng, 5, eq);
+            out.push(WindowPlan { tag: format!("window-{name}-{round}"), w, first: f, eq, script, what });
+        }
+    }
+    out
+}
+
 fn main() {
     let args = Args::parse();
     quiet_panics();
@@ -1284,6 +1684,15 @@ fn main() {
         let mut r = rng.fork();
         let t = std::time::Instant::now();
         run_case(&mut w, &mut r, p);
+        let dt = t.elapsed().as_secs_f64();
+        if dt > slowest.0 {
+            slowest = (dt, p.tag.clone());
+        }
+    }
+    for p in &window_plans(&mut rng.fork(), args.thorough) {
+        let mut r = rng.fork();
+        let t = std::time::Instant::now();
+        run_window_case(&mut w, &mut r, p);
         let dt = t.elapsed().as_secs_f64();
         if dt > slowest.0 {
             slowest = (dt, p.tag.clone());
